@@ -22,7 +22,17 @@ def sample_ob(cls, R_is_one):
         calls = I.flags.get("prng_calls", [])
         if len(calls) != 1 or calls[0][0] != "key":
             raise Refuted(f"sample draws from {len(calls)} PRNG streams {calls}; expected exactly one jax.random.normal on the caller's key", f"{P}::GaussianPDF.sample")
-        z = nf.atom(f"Normal(key;{n},{R},{Dd})", [n, R, Dd])
+        # the draw may have any shape that reshapes (row-major) to (n,R,D): a relabelling of i.i.d. entries keeps the law
+        shp = calls[0][3]
+        tot = D(1)
+        for x in shp:
+            tot = tot * x
+        if tot != n * R * Dd:
+            raise Refuted(f"sample draws {tot} standard normals (shape {calls[0][1]}); n*R*D = {n * R * Dd} independent ones are needed "
+                          "(components / draws / coordinates would share random numbers)", f"{P}::GaussianPDF.sample")
+        z = nf.atom(f"Normal(key;{','.join(calls[0][1])})", shp)
+        if [str(x) for x in shp] != [str(n), str(R), str(Dd)]:
+            z = nf.reshape(z, [n, R, Dd])
         Lc = nf.matfun("Chol", p.f["Sigma"], "cholesky")
         ref = nf.add(nf.expand_dims(p.f["mu"], [None]), nf.einsum("rbc,mrc->mrb", Lc, z))
         d = nf.diff(got, ref, what="sample")
